@@ -149,7 +149,7 @@ func (s *mstate) step(e *mevent) (bool, string) {
 		if s.rpc != rNeedBad || len(s.queue) >= badDataCap {
 			return false, ""
 		}
-		s.queue = append(s.queue, idr{s.rf, s.rt})
+		s.queue = append(s.queue, idr{s.rf + 1, s.rt}) // BadData{FromID: fromRecordID + 1, ToID: toRecordID}
 		s.rpc = rTop
 		return true, fmt.Sprintf("ok q=%d", len(s.queue))
 	case "tick":
